@@ -93,3 +93,8 @@ claim("C18",
  "Trusted: go/types; the copying functions are located through the public names Dup, Decompose, Generify, Simplify; Alter/GenAlter are exempt (documented in-place).",
  "static analysis: path-sensitive must-assignment of the result from a fresh allocation, element-store lint, twin-body comparison, kind-switch parity, product event synchrony",
  "DESIGN.md §4 C18")
+claim("C20",
+ "Static decision of structural clauses about assembly plans: recover frame at Plan.Execute with no goroutines or process exits beneath it, no map iteration order reaching an ordered result, the four ordering functions identical up to operators, sort.* only on memory allocated in the activation, per-iteration evaluation scratch maps. What the functions compute and rebuild equivalence of String()/Simplify() are not decided.",
+ "Trusted: go/types; rules whose expected count on a healthy tree is zero (map order, scratch maps) are armed by the seeded changes recorded under /verif/seeded, not by an in-tree instance.",
+ "static analysis: recover-frame shape check, map-order determinism lint, sibling body comparison, allocation-freshness lints",
+ "DESIGN.md §4 C20")
